@@ -218,7 +218,7 @@ def _bmc(thr, N, goal, timeout):
     import time
     from vf import e2_c20, rt
     tc = ThresholdCounter(threshold=thr)
-    W = tc._thresh_count
+    W = rt.internal(tc, '_thresh_count')
     if goal == 'size' and 'size_bound' in rt.STATE['assume_not']:
         return {'verdict': 'confirmed', 'paths': 0, 'completed': 0, 'witness': 1,
                 'samples': [{'note': 'size-bound clause assumed away (known finding); this obligation checks nothing else'}]}
